@@ -430,6 +430,8 @@ fn extract_fn(
         assoc: assoc_types.clone(),
         lits: Vec::new(),
         lit_prefix: key.chars().map(|c| if c.is_ascii_alphanumeric() { c } else { '_' }).collect(),
+        rules_enabled: true,
+        anchor_seen: BTreeMap::new(),
     };
 
     // canonical (overlay-free) body: for uniformity comparison
@@ -555,7 +557,7 @@ fn extract_fn(
     })
 }
 
-struct Rw<'a> {
+pub struct Rw<'a> {
     ctx: &'a ModCtx,
     owner_is_enum: bool,
     self_kind: &'a str,
@@ -574,6 +576,9 @@ struct Rw<'a> {
     assoc: BTreeMap<String, Type>,
     lits: Vec<String>,
     lit_prefix: String,
+    /// false for generator slices (layer G): only the overlay machinery is applied
+    rules_enabled: bool,
+    anchor_seen: BTreeMap<String, usize>,
 }
 
 impl<'a> Rw<'a> {
@@ -596,6 +601,8 @@ impl<'a> Rw<'a> {
             assoc: self.assoc.clone(),
             lits: Vec::new(),
             lit_prefix: self.lit_prefix.clone(),
+            rules_enabled: self.rules_enabled,
+            anchor_seen: BTreeMap::new(),
         }
     }
 
@@ -661,6 +668,142 @@ impl<'a> Rw<'a> {
         }
     }
 
+
+    fn apply_overlay(&mut self, e: &mut Expr, my_loop: Option<usize>, my_closure: Option<usize>, my_return: Option<usize>) {
+        // overlay: loops / closures / returns ------------------------------------------------
+        if let Some(n) = my_loop {
+            let o = self.ov_get("loops", n);
+            let spec = o.and_then(|o| o.get("spec")).and_then(|v| v.as_str()).map(ts).unwrap_or_default();
+            let ghost = o.and_then(|o| o.get("ghost")).and_then(|v| v.as_str());
+            let head = o.and_then(|o| o.get("head")).and_then(|v| v.as_str()).map(ts).unwrap_or_default();
+            match e {
+                Expr::ForLoop(f) => {
+                    // R4: by-value iteration over a table constant
+                    let mut iter_expr = (*f.expr).clone();
+                    if let Expr::Call(c) = &iter_expr {
+                        if c.args.is_empty() {
+                            if let Expr::Path(p) = &*c.func {
+                                if self.const_path(&p.path).is_some() {
+                                    iter_expr = parse_quote!(#iter_expr.iter());
+                                    self.rule("R4");
+                                }
+                            }
+                        }
+                    }
+                    let pat = &f.pat;
+                    let body_stmts = &f.body.stmts;
+                    let label = &f.label;
+                    let g = match ghost {
+                        Some(g) => {
+                            let gi = Ident::new(g, Span::call_site());
+                            quote!(#gi :)
+                        }
+                        None => quote!(),
+                    };
+                    *e = Expr::Verbatim(quote!(#label for #pat in #g #iter_expr #spec { #head #(#body_stmts)* }));
+                }
+                Expr::Loop(l) => {
+                    let body_stmts = &l.body.stmts;
+                    let label = &l.label;
+                    *e = Expr::Verbatim(quote!(#label loop #spec { #head #(#body_stmts)* }));
+                }
+                Expr::While(w) => {
+                    let body_stmts = &w.body.stmts;
+                    let label = &w.label;
+                    let cond = &w.cond;
+                    *e = Expr::Verbatim(quote!(#label while #cond #spec { #head #(#body_stmts)* }));
+                }
+                _ => {}
+            }
+        }
+        if let Some(n) = my_closure {
+            if let Some(o) = self.ov_get("closures", n) {
+                if let Expr::Closure(c) = e {
+                    let params = o.get("params").and_then(|v| v.as_str()).map(ts);
+                    let ret = o.get("ret").and_then(|v| v.as_str()).map(ts).unwrap_or_default();
+                    let spec = o.get("spec").and_then(|v| v.as_str()).map(ts).unwrap_or_default();
+                    let body = &c.body;
+                    let inputs = &c.inputs;
+                    let params = params.unwrap_or_else(|| quote!(#inputs));
+                    let mv = &c.capture;
+                    *e = Expr::Verbatim(quote!(#mv |#params| #ret #spec { #body }));
+                }
+            }
+        }
+        if let Some(n) = my_return {
+            if let Some(o) = self.ov_get("before_return", n) {
+                if let Some(t) = o.as_str() {
+                    let t = ts(t);
+                    let inner = e.clone();
+                    *e = Expr::Verbatim(quote!({ #t #inner }));
+                }
+            }
+        }
+    }
+
+    /// Layer G token-construction abstraction (DESIGN §3.2):
+    ///   G1  LitInt::new(&format!("{X}{repr}"), _)  ->  __lit(X, repr)
+    ///   G2  quote! { … #a … #b … }                 ->  __quote_<n>(a, b, …)   (template text recorded)
+    fn generator_rules(&mut self, e: &mut Expr) {
+        match e {
+            Expr::Call(c) => {
+                if let Expr::Path(p) = &*c.func {
+                    if path_str(&p.path).ends_with("LitInt::new") && c.args.len() == 2 {
+                        if let Expr::Reference(r) = &c.args[0] {
+                            if let Expr::Macro(m) = &*r.expr {
+                                if m.mac.path.is_ident("format") {
+                                    let toks: Vec<proc_macro2::TokenTree> = m.mac.tokens.clone().into_iter().collect();
+                                    if toks.len() == 1 {
+                                        let lit = toks[0].to_string();
+                                        let inner = lit.trim_matches('"');
+                                        let names: Vec<&str> = inner.split(|c| c == '{' || c == '}').filter(|x| !x.is_empty()).collect();
+                                        let literal_text = inner.replace('{', "").replace('}', "");
+                                        if names.concat() == literal_text && !names.is_empty() {
+                                            let ids: Vec<Ident> = names.iter().map(|n| Ident::new(n, Span::call_site())).collect();
+                                            *e = parse_quote!(__lit(#(#ids),*));
+                                            self.rule("G1");
+                                            return;
+                                        }
+                                    }
+                                    self.errors.push(format!("G1: unsupported format! argument {}", m.mac.tokens));
+                                }
+                            }
+                        }
+                    }
+                }
+            }
+            Expr::Macro(m) => {
+                if m.mac.path.is_ident("quote") {
+                    let mut vars: Vec<Ident> = Vec::new();
+                    fn walk(ts: TokenStream, vars: &mut Vec<Ident>) {
+                        let v: Vec<proc_macro2::TokenTree> = ts.into_iter().collect();
+                        let mut i = 0;
+                        while i < v.len() {
+                            match &v[i] {
+                                proc_macro2::TokenTree::Punct(p) if p.as_char() == '#' => {
+                                    if let Some(proc_macro2::TokenTree::Ident(id)) = v.get(i + 1) {
+                                        vars.push(id.clone());
+                                        i += 1;
+                                    }
+                                }
+                                proc_macro2::TokenTree::Group(g) => walk(g.stream(), vars),
+                                _ => {}
+                            }
+                            i += 1;
+                        }
+                    }
+                    walk(m.mac.tokens.clone(), &mut vars);
+                    let n = self.lits.len();
+                    self.lits.push(pp::flat(&m.mac.tokens));
+                    let id = Ident::new(&format!("__quote_{}", n), Span::call_site());
+                    *e = parse_quote!(#id(#(&#vars),*));
+                    self.rule("G2");
+                }
+            }
+            _ => {}
+        }
+    }
+
     fn is_transmute(p: &Path) -> bool {
         let s = path_str(p);
         s == "::core::mem::transmute" || s == "core::mem::transmute" || s == "::std::mem::transmute" || s == "std::mem::transmute" || s == "transmute"
@@ -700,6 +843,15 @@ impl<'a> VisitMut for Rw<'a> {
         visit_mut::visit_type_mut(self, t);
     }
 
+    fn visit_stmt_mut(&mut self, st: &mut Stmt) {
+        // a macro in statement position (`quote! { .. }` as a block's tail) is an expression
+        if let Stmt::Macro(sm) = st {
+            let e = Expr::Macro(ExprMacro { attrs: sm.attrs.clone(), mac: sm.mac.clone() });
+            *st = Stmt::Expr(e, sm.semi_token);
+        }
+        visit_mut::visit_stmt_mut(self, st);
+    }
+
     fn visit_block_mut(&mut self, b: &mut Block) {
         // visit statements, then apply statement-anchored overlay insertions
         let mut out: Vec<Stmt> = Vec::new();
@@ -716,7 +868,13 @@ impl<'a> VisitMut for Rw<'a> {
                     if let Some(a) = o.get(sect).and_then(|v| v.as_array()) {
                         for (i, e) in a.iter().enumerate() {
                             let anchor = e.get("anchor").and_then(|v| v.as_str()).unwrap_or("\u{0}");
+                            let want = e.get("occurrence").and_then(|v| v.as_u64()).unwrap_or(1) as usize;
                             if anchor_text.starts_with(anchor) && !self.used_anchors.contains(&format!("{sect}{i}")) {
+                                let seen = self.anchor_seen.entry(format!("{sect}{i}")).or_insert(0);
+                                *seen += 1;
+                                if *seen != want {
+                                    continue;
+                                }
                                 self.used_anchors.insert(format!("{sect}{i}"));
                                 let text = e.get("text").and_then(|v| v.as_str()).unwrap_or("");
                                 dst.push(Stmt::Expr(Expr::Verbatim(ts(text)), None));
@@ -753,6 +911,12 @@ impl<'a> VisitMut for Rw<'a> {
             self.unsafe_seen += 1;
         }
         // R9 on a negated suffixed literal: `-2i8` is one literal of the macro's output
+        if !self.rules_enabled {
+            visit_mut::visit_expr_mut(self, e);
+            self.generator_rules(e);
+            self.apply_overlay(e, my_loop, my_closure, my_return);
+            return;
+        }
         if let Expr::Unary(u) = e {
             if let (UnOp::Neg(_), Expr::Lit(l)) = (&u.op, &*u.expr) {
                 if let Lit::Int(li) = &l.lit {
@@ -866,74 +1030,60 @@ impl<'a> VisitMut for Rw<'a> {
             _ => {}
         }
 
-        // overlay: loops / closures / returns ------------------------------------------------
-        if let Some(n) = my_loop {
-            let o = self.ov_get("loops", n);
-            let spec = o.and_then(|o| o.get("spec")).and_then(|v| v.as_str()).map(ts).unwrap_or_default();
-            let ghost = o.and_then(|o| o.get("ghost")).and_then(|v| v.as_str());
-            let head = o.and_then(|o| o.get("head")).and_then(|v| v.as_str()).map(ts).unwrap_or_default();
-            match e {
-                Expr::ForLoop(f) => {
-                    // R4: by-value iteration over a table constant
-                    let mut iter_expr = (*f.expr).clone();
-                    if let Expr::Call(c) = &iter_expr {
-                        if c.args.is_empty() {
-                            if let Expr::Path(p) = &*c.func {
-                                if self.const_path(&p.path).is_some() {
-                                    iter_expr = parse_quote!(#iter_expr.iter());
-                                    self.rule("R4");
-                                }
-                            }
-                        }
+        self.apply_overlay(e, my_loop, my_closure, my_return);
+    }
+}
+
+/// Layer G: apply only the annotation overlay to a list of statements sliced verbatim from the
+/// generator's source.  Returns (pretty text, flat canonical text of the unannotated slice, errors).
+pub fn annotate_slice(stmts: Vec<Stmt>, ov: Option<&Value>) -> (String, String, Vec<String>, Vec<String>) {
+    let ctx = ModCtx { enum_ident: "\u{0}".to_string(), repr: "\u{0}".to_string(), consts: BTreeMap::new(), rename: BTreeMap::new() };
+    let raw = stmts.iter().map(|s| flat(s)).collect::<Vec<_>>().join(" ");
+    let mut rw = Rw {
+        ctx: &ctx,
+        owner_is_enum: false,
+        self_kind: "none",
+        enum_locals: BTreeSet::new(),
+        ov,
+        loop_no: 0,
+        closure_no: 0,
+        return_no: 0,
+        rules: BTreeMap::new(),
+        errors: Vec::new(),
+        unsafe_seen: 0,
+        unsafe_consumed: 0,
+        used_anchors: BTreeSet::new(),
+        subst_self: None,
+        assoc: BTreeMap::new(),
+        lits: Vec::new(),
+        lit_prefix: String::new(),
+        rules_enabled: false,
+        anchor_seen: BTreeMap::new(),
+    };
+    let mut block = Block { brace_token: Default::default(), stmts };
+    rw.visit_block_mut(&mut block);
+    if let Some(o) = ov {
+        for (sect, n) in [("loops", rw.loop_no), ("closures", rw.closure_no), ("before_return", rw.return_no)] {
+            if let Some(m) = o.get(sect).and_then(|v| v.as_object()) {
+                for k in m.keys() {
+                    let idx: usize = k.parse().unwrap_or(usize::MAX);
+                    if idx >= n {
+                        rw.errors.push(format!("overlay {sect}[{k}] has no matching site (only {n} in slice)"));
                     }
-                    let pat = &f.pat;
-                    let body_stmts = &f.body.stmts;
-                    let label = &f.label;
-                    let g = match ghost {
-                        Some(g) => {
-                            let gi = Ident::new(g, Span::call_site());
-                            quote!(#gi :)
-                        }
-                        None => quote!(),
-                    };
-                    *e = Expr::Verbatim(quote!(#label for #pat in #g #iter_expr #spec { #head #(#body_stmts)* }));
-                }
-                Expr::Loop(l) => {
-                    let body_stmts = &l.body.stmts;
-                    let label = &l.label;
-                    *e = Expr::Verbatim(quote!(#label loop #spec { #head #(#body_stmts)* }));
-                }
-                Expr::While(w) => {
-                    let body_stmts = &w.body.stmts;
-                    let label = &w.label;
-                    let cond = &w.cond;
-                    *e = Expr::Verbatim(quote!(#label while #cond #spec { #head #(#body_stmts)* }));
-                }
-                _ => {}
-            }
-        }
-        if let Some(n) = my_closure {
-            if let Some(o) = self.ov_get("closures", n) {
-                if let Expr::Closure(c) = e {
-                    let params = o.get("params").and_then(|v| v.as_str()).map(ts);
-                    let ret = o.get("ret").and_then(|v| v.as_str()).map(ts).unwrap_or_default();
-                    let spec = o.get("spec").and_then(|v| v.as_str()).map(ts).unwrap_or_default();
-                    let body = &c.body;
-                    let inputs = &c.inputs;
-                    let params = params.unwrap_or_else(|| quote!(#inputs));
-                    let mv = &c.capture;
-                    *e = Expr::Verbatim(quote!(#mv |#params| #ret #spec { #body }));
                 }
             }
         }
-        if let Some(n) = my_return {
-            if let Some(o) = self.ov_get("before_return", n) {
-                if let Some(t) = o.as_str() {
-                    let t = ts(t);
-                    let inner = e.clone();
-                    *e = Expr::Verbatim(quote!({ #t #inner }));
+        for sect in ["after_stmt", "before_stmt"] {
+            if let Some(a) = o.get(sect).and_then(|v| v.as_array()) {
+                for (i, e) in a.iter().enumerate() {
+                    if !rw.used_anchors.contains(&format!("{sect}{i}")) {
+                        rw.errors.push(format!("overlay {sect} anchor {:?} not found", e.get("anchor").and_then(|v| v.as_str()).unwrap_or("")));
+                    }
                 }
             }
         }
     }
+    let stmts = &block.stmts;
+    let text = pp::pretty(&quote!(#(#stmts)*), 2);
+    (text, raw, rw.errors, rw.lits)
 }
